@@ -296,7 +296,9 @@ def e2e_case(case):
             ukw[f"{srv_dir}_speed_limit_per_connection"] = L
 
     def users(a, base):
-        return [a.User(f"u{k}", None, base_path=base, **ukw) for k in range(nusers)]
+        return [a.User(f"u{k}", None, base_path=base, **ukw) for k in range(nusers)] + [a.User("free", None, base_path=base)]
+
+    relogin = case.get("relogin")
 
     data = bytes(range(256)) * (size // 256 + 1)
     data = data[:size]
@@ -305,6 +307,8 @@ def e2e_case(case):
     a = w.aioftp
     times = {}
     streams = {}
+    churn_streams = {}
+    login_marks = {}
     try:
         clients = {}
 
@@ -312,13 +316,24 @@ def e2e_case(case):
             c = a.Client(path_io_factory=a.MemoryPathIO, **ckw)
             await c.connect("127.0.0.1", 2121)
             streams[k] = [c.stream.writer.transport]
-            await c.login(f"u{k % nusers}", "")
+            if relogin == "free-then-limited":
+                await c.login("free", "")
+                await c.login(f"u{k % nusers}", "")
+            elif relogin == "limited-then-free":
+                await c.login(f"u{k % nusers}", "")
+                await c.login("free", "")
+            else:
+                await c.login(f"u{k % nusers}", "")
             clients[k] = c
+            srv = c.stream.writer.transport.peer
+            login_marks[k] = (len(srv.write_log), len(srv.read_log), len(c.stream.writer.transport.write_log),
+                              len(c.stream.writer.transport.read_log))
 
         async def churn(k):
             # another connection of the same user comes and goes while the measured ones stay logged in
             c = a.Client(path_io_factory=a.MemoryPathIO, **ckw)
             await c.connect("127.0.0.1", 2121)
+            churn_streams.setdefault(k % nusers, []).append(c.stream.writer.transport)
             await c.login(f"u{k % nusers}", "")
             await c.quit()
 
@@ -369,7 +384,7 @@ def e2e_case(case):
             if not levels:
                 if total > EPS:
                     problems.append({"kind": "delay-without-applicable-limit", "virtual_seconds": total})
-            elif case.get("opposite"):
+            elif case.get("opposite") or relogin == "limited-then-free":
                 # the control channel also flows in the opposite direction and is legitimately throttled, so the
                 # duration is not zero - but it must not depend on the amount of data moved
                 if "compare_total" in case and abs(total - case["compare_total"]) > EPS:
@@ -391,7 +406,24 @@ def e2e_case(case):
                     for k in g:
                         for ct in streams.get(k, []):
                             trs.append(ct if limited_side == "client" else ct.peer)
-                    ev = sorted((t, n) for tr in trs for t, n in (tr.write_log if io == "write" else tr.read_log) if n)
+                    # connections that came and went share the server-wide / per-user budget too
+                    if tight == "server":
+                        for lst in churn_streams.values():
+                            trs += [ct.peer for ct in lst]
+                    elif tight == "user":
+                        for u in {k % nusers for k in g}:
+                            trs += [ct.peer for ct in churn_streams.get(u, [])]
+                    def log_of(tr):
+                        lg = tr.write_log if io == "write" else tr.read_log
+                        if tight in ("user", "user_per_connection"):
+                            # a per-user throttle exists only from the (last) login on: earlier I/O of the control
+                            # connection is not subject to it
+                            for k2, (sw, sr, cw, cr) in login_marks.items():
+                                ctl = streams[k2][0]
+                                if tr is ctl.peer:
+                                    return lg[(sw if io == "write" else sr):]
+                        return lg
+                    ev = sorted((t, n) for tr in trs for t, n in log_of(tr) if n)
                     if not ev:
                         problems.append({"kind": "no-observations", "group": g})
                         continue
@@ -408,9 +440,25 @@ def e2e_case(case):
                         moved += n
                     total_bytes = sum(n for _, n in ev)
                     t_last = ev[-1][0]
-                    if t_last - t0 > (total_bytes - ev[-1][1]) / LIM + 0.02 * len(ev) + EPS:
+                    at_most = (total_bytes - ev[-1][1]) / LIM
+                    # a looser (2 x LIM) limit of a *wider* scope can still be the binding one for the sum of several
+                    # connections: then the bound is what that limit requires for everything in its scope
+                    if len(levels) == 2 and levels[1] in ("server", "user"):
+                        srv_io = "write" if direction == "download" else "read"
+                        scope = range(nconn) if levels[1] == "server" else [k for k in range(nconn)
+                                                                              if k % nusers in {j % nusers for j in g}]
+                        wide = 0
+                        t0w = t0
+                        for k in scope:
+                            for ct in streams.get(k, []):
+                                lg = [(t, n) for t, n in (ct.peer.write_log if srv_io == "write" else ct.peer.read_log) if n]
+                                wide += sum(n for _, n in lg)
+                                if lg:
+                                    t0w = min(t0w, lg[0][0])
+                        at_most = max(at_most, (t0w - t0) + wide / (2 * LIM))
+                    if t_last - t0 > at_most + 0.02 * len(ev) + EPS:
                         problems.append({"kind": "extra-delay-or-limit-shared-too-widely", "level": tight, "group": g,
-                                         "duration": t_last - t0, "at_most": (total_bytes - ev[-1][1]) / LIM})
+                                         "duration": t_last - t0, "at_most": at_most})
                     # lower bound: one block per stream may be in flight, and the very first I/O of a stream may
                     # predate the installation of a per-user throttle (the USER line itself)
                     firsts = 0
@@ -472,7 +520,7 @@ def e2e_work(cases):
     enable_write_logs()
     part = report.Partial()
     for c in cases:
-        if c.get("opposite"):
+        if c.get("opposite") or c.get("relogin") == "limited-then-free":
             small = dict(c, size=BLOCK)
             p0 = e2e_case(small)
             c = dict(c, compare_total=p0.last_total)
@@ -495,6 +543,13 @@ def e2e_items(tier):
                     # the same, with other connections of the same users logging in and out in between
                     cases.append({"levels": levels, "direction": direction, "nconn": nconn, "nusers": nusers,
                                   "size": sizes[0], "churn": True})
+    # re-login on the same control connection: only the limits of the user logged in *now* apply
+    for lv in ("user", "user_per_connection"):
+        for direction in ("download", "upload"):
+            for how in ("free-then-limited", "limited-then-free"):
+                for nconn in (1, 2):
+                    cases.append({"levels": [lv], "direction": direction, "nconn": nconn, "nusers": 1, "size": 20 * BLOCK,
+                                  "relogin": how})
     for direction in ("download", "upload"):
         for nconn in (1, 2):
             cases.append({"levels": [], "direction": direction, "nconn": nconn, "nusers": 1, "size": 20 * BLOCK})
@@ -519,7 +574,7 @@ def run(tier, seed, t0):
                                   "shared vs cloned (two concurrent streams)"]},
               "e2e": {"levels": LEVELS, "pairs": "all ordered pairs (first = tightest)", "directions": ["download", "upload"],
                       "connections_users": [(1, 1), (2, 1), (2, 2), (3, 2)], "churn": "extra connections of the same users log in and out between the logins of the measured ones", "sizes": [BLOCK, 3 * BLOCK + 1, 20 * BLOCK],
-                      "limit": LIM, "cases": ncases}}
+                      "limit": LIM, "cases": ncases, "relogin": "free user then limited user and the reverse on one control connection"}}
     return report.finish(
         PID, tier, seed, "model_checking", part, t0,
         rule="API: every sequence over the (chunk, duration, gap) alphabet through the real ThrottleStreamIO on the virtual "
